@@ -27,7 +27,9 @@ pub enum Ill { None, WrongArgKind, TargetWithoutArm { declared: bool }, SelfLoop
 
 #[derive(Clone, Debug, Serialize, Deserialize)]
 pub enum Case {
-  Scalar { fields: u8, arms: Vec<StateArm>, args: Vec<u8>, ill: Ill, default_limit: bool },
+  /// `split`: a guarded list is written as TWO arms for the same state — the guards without the closing `*`, then an unguarded arm
+  /// holding the `*` transition (the machine falls through to the later arm when no guard of the first one holds); same semantics
+  Scalar { fields: u8, arms: Vec<StateArm>, args: Vec<u8>, ill: Ill, default_limit: bool, #[serde(default)] split: bool },
   /// array-pattern machines: template, initial vector, counter, variant
   Array { template: u8, xs: Vec<u8>, n: u8, variant: u8 },
 }
@@ -63,15 +65,15 @@ impl Prop for C17 {
   fn strategy(_t: Tier, _k: &Known) -> BoxedStrategy<Case> {
     let scalar = (1u8..=4, 1u8..=3).prop_flat_map(|(nstates, fields)| {
       let arms: Vec<BoxedStrategy<StateArm>> = (0..nstates).map(|i| arm_s(nstates, fields, i)).collect();
-      (arms, proptest::collection::vec(0u8..6, fields as usize), prop_oneof![12 => Just(Ill::None), 1 => Just(Ill::WrongArgKind), 1 => any::<bool>().prop_map(|declared| Ill::TargetWithoutArm { declared }), 1 => Just(Ill::SelfLoop), 1 => Just(Ill::UnusedDeclaredState)])
-        .prop_map(move |(arms, args, ill)| Case::Scalar { fields, arms, args, ill, default_limit: false })
+      (arms, proptest::collection::vec(0u8..6, fields as usize), prop_oneof![12 => Just(Ill::None), 1 => Just(Ill::WrongArgKind), 1 => any::<bool>().prop_map(|declared| Ill::TargetWithoutArm { declared }), 1 => Just(Ill::SelfLoop), 1 => Just(Ill::UnusedDeclaredState)], proptest::bool::weighted(0.4))
+        .prop_map(move |(arms, args, ill, split)| Case::Scalar { fields, arms, args, ill, default_limit: false, split })
     }).boxed();
     let array = (0u8..4, proptest::collection::vec(0u8..9, 1..=5), 0u8..5, 0u8..4).prop_map(|(template, xs, n, variant)| Case::Array { template, xs, n, variant }).boxed();
     prop_oneof![5 => scalar, 2 => array].boxed()
   }
   fn fixed_cases(_t: Tier) -> Vec<Case> {
     // one non-terminating machine run under the default transition limit
-    vec![Case::Scalar { fields: 1, arms: vec![StateArm::Direct(Trans { target: 1, upd: vec![Upd::Keep], done_field: 0 })], args: vec![1], ill: Ill::SelfLoop, default_limit: true }]
+    vec![Case::Scalar { fields: 1, arms: vec![StateArm::Direct(Trans { target: 1, upd: vec![Upd::Keep], done_field: 0 })], args: vec![1], ill: Ill::SelfLoop, default_limit: true, split: false }]
   }
   fn rule() -> &'static str {
     "case = a machine generated from a small transition system (1-4 states + terminal, 1-3 u64 payload fields, per state a direct \
@@ -106,7 +108,7 @@ fn trans_text(t: &Trans, nstates: u8, fields: u8) -> String {
 
 fn render(c: &Case) -> String {
   match c {
-    Case::Scalar { fields, arms, args, ill, .. } => {
+    Case::Scalar { fields, arms, args, ill, split, .. } => {
       let nstates = arms.len() as u8;
       let f = *fields as usize;
       let decl: Vec<String> = (0..f).map(|i| format!("{}<u64>", FN[i])).collect();
@@ -122,6 +124,12 @@ fn render(c: &Case) -> String {
         if i == 0 && matches!(ill, Ill::TargetWithoutArm { .. }) { s.push_str(&format!("{} -> :Ghost({})\n", head, names.join(", "))); continue; }
         match arm {
           StateArm::Direct(t) => s.push_str(&format!("{} -> {}\n", head, trans_text(t, nstates, *fields))),
+          StateArm::Guarded(gs) if *split && gs.len() >= 2 => {
+            s.push_str(&format!("{}\n", head));
+            let n = gs.len() - 1;
+            for (k, (g, t)) in gs.iter().take(n).enumerate() { s.push_str(&format!("    {} {} -> {}\n", if k + 1 == n { "└" } else { "├" }, guard_text(g), trans_text(t, nstates, *fields))); }
+            s.push_str(&format!("{} -> {}\n", head, trans_text(&gs[n].1, nstates, *fields)));
+          }
           StateArm::Guarded(gs) => {
             s.push_str(&format!("{}\n", head));
             for (k, (g, t)) in gs.iter().enumerate() { s.push_str(&format!("    {} {} -> {}\n", if k + 1 == gs.len() { "└" } else { "├" }, guard_text(g), trans_text(t, nstates, *fields))); }
@@ -207,7 +215,7 @@ fn check(c: &Case) -> Verdict {
   let mut v = Verdict::new();
   let src = render(c);
   match c {
-    Case::Scalar { fields, arms, args, ill, default_limit } => {
+    Case::Scalar { fields, arms, args, ill, default_limit, .. } => {
       let limit = if *default_limit { None } else { Some(500) };
       let (out, seq) = traced_run(&src, limit);
       if let Outcome::NotCode | Outcome::ParseErr(_) = out { v.harness(format!("machine did not parse as code ({}):\n{}", out.show(), src)); return v; }
